@@ -1,4 +1,6 @@
-// Package fq: throw-away prototype of an MQTT 3.1.1 broker subset.
+// Package fakemqtt: MQTT 3.1.1 broker stand-in (CONNECT, SUBSCRIBE, PUBLISH QoS 0/1,
+// PINGREQ, DISCONNECT) that records every publish and delivers through per-subscriber
+// queues the harness can delay or hold. Part of the trusted base (DESIGN.md §2.3).
 package fakemqtt
 
 import (
@@ -6,44 +8,128 @@ import (
 	"io"
 	"net"
 	"sync"
+	"time"
 )
 
+// Pub is one recorded publish.
 type Pub struct {
-	Topic   string
-	Payload []byte
+	Seq       int
+	Topic     string
+	Payload   []byte
+	Publisher string // MQTT client id of the publisher
 }
 
+// Broker is the stand-in.
 type Broker struct {
-	mu   sync.Mutex
-	l    net.Listener
-	subs map[string][]*conn
-	Pubs []Pub
+	mu     sync.Mutex
+	l      net.Listener
+	subs   map[string][]*conn
+	pubs   []Pub
+	queued int
+	// Delay decides how long a delivery to subscriber (client id) waits; nil = none.
+	delay func(subscriber, topic string) time.Duration
+	hold  chan struct{} // non-nil: deliveries wait until it is closed
+	conns map[*conn]bool
 }
 
 type conn struct {
-	c  net.Conn
-	wm sync.Mutex
+	c     net.Conn
+	wm    sync.Mutex
+	id    string
+	queue chan []byte
+	topic chan string
 }
 
+// New starts a broker on a loopback port.
 func New() *Broker {
 	l, err := net.Listen("tcp", "127.0.0.1:0")
 	if err != nil {
 		panic(err)
 	}
-	b := &Broker{l: l, subs: map[string][]*conn{}}
+	b := &Broker{l: l, subs: map[string][]*conn{}, conns: map[*conn]bool{}}
 	go func() {
 		for {
 			c, err := l.Accept()
 			if err != nil {
 				return
 			}
-			go b.serve(&conn{c: c})
+			cn := &conn{c: c, queue: make(chan []byte, 4096), topic: make(chan string, 4096)}
+			b.mu.Lock()
+			b.conns[cn] = true
+			b.mu.Unlock()
+			go b.deliverLoop(cn)
+			go b.serve(cn)
 		}
 	}()
 	return b
 }
 
+// Addr returns the broker URL for paho.
 func (b *Broker) Addr() string { return "tcp://" + b.l.Addr().String() }
+
+// Close stops the broker.
+func (b *Broker) Close() {
+	b.l.Close()
+	b.mu.Lock()
+	for c := range b.conns {
+		c.c.Close()
+	}
+	b.mu.Unlock()
+}
+
+// Pubs returns a copy of the publish log.
+func (b *Broker) Pubs() []Pub {
+	b.mu.Lock()
+	defer b.mu.Unlock()
+	return append([]Pub{}, b.pubs...)
+}
+
+// NumPubs returns the number of publishes so far.
+func (b *Broker) NumPubs() int {
+	b.mu.Lock()
+	defer b.mu.Unlock()
+	return len(b.pubs)
+}
+
+// Queued returns the number of deliveries accepted but not yet written to a subscriber.
+func (b *Broker) Queued() int {
+	b.mu.Lock()
+	defer b.mu.Unlock()
+	return b.queued
+}
+
+// SetDelay installs the delivery delay function.
+func (b *Broker) SetDelay(f func(subscriber, topic string) time.Duration) {
+	b.mu.Lock()
+	b.delay = f
+	b.mu.Unlock()
+}
+
+// Hold makes all deliveries wait until Release is called.
+func (b *Broker) Hold() {
+	b.mu.Lock()
+	if b.hold == nil {
+		b.hold = make(chan struct{})
+	}
+	b.mu.Unlock()
+}
+
+// Release lets held deliveries go.
+func (b *Broker) Release() {
+	b.mu.Lock()
+	if b.hold != nil {
+		close(b.hold)
+		b.hold = nil
+	}
+	b.mu.Unlock()
+}
+
+// Subscribers returns the number of subscriptions of a topic.
+func (b *Broker) Subscribers(topic string) int {
+	b.mu.Lock()
+	defer b.mu.Unlock()
+	return len(b.subs[topic])
+}
 
 func readLen(r *bufio.Reader) (int, error) {
 	n, mult := 0, 1
@@ -81,8 +167,45 @@ func (c *conn) send(p []byte) {
 	c.wm.Unlock()
 }
 
+func (b *Broker) deliverLoop(c *conn) {
+	for pkt := range c.queue {
+		topic := <-c.topic
+		b.mu.Lock()
+		d := time.Duration(0)
+		if b.delay != nil {
+			d = b.delay(c.id, topic)
+		}
+		hold := b.hold
+		b.mu.Unlock()
+		if hold != nil {
+			<-hold
+		}
+		if d > 0 {
+			time.Sleep(d)
+		}
+		c.send(pkt)
+		b.mu.Lock()
+		b.queued--
+		b.mu.Unlock()
+	}
+}
+
 func (b *Broker) serve(c *conn) {
-	defer c.c.Close()
+	defer func() {
+		c.c.Close()
+		b.mu.Lock()
+		delete(b.conns, c)
+		for t, l := range b.subs {
+			var keep []*conn
+			for _, x := range l {
+				if x != c {
+					keep = append(keep, x)
+				}
+			}
+			b.subs[t] = keep
+		}
+		b.mu.Unlock()
+	}()
 	r := bufio.NewReader(c.c)
 	for {
 		h, err := r.ReadByte()
@@ -98,7 +221,17 @@ func (b *Broker) serve(c *conn) {
 			return
 		}
 		switch h >> 4 {
-		case 1: // CONNECT
+		case 1: // CONNECT: protocol name, level, flags, keepalive, client id
+			if len(body) >= 2 {
+				pl := int(body[0])<<8 | int(body[1])
+				off := 2 + pl + 1 + 1 + 2
+				if len(body) >= off+2 {
+					il := int(body[off])<<8 | int(body[off+1])
+					if len(body) >= off+2+il {
+						c.id = string(body[off+2 : off+2+il])
+					}
+				}
+			}
 			c.send([]byte{0x20, 2, 0, 0})
 		case 3: // PUBLISH
 			tl := int(body[0])<<8 | int(body[1])
@@ -110,17 +243,19 @@ func (b *Broker) serve(c *conn) {
 				rest = rest[2:]
 				c.send([]byte{0x40, 2, pid[0], pid[1]})
 			}
-			b.mu.Lock()
-			b.Pubs = append(b.Pubs, Pub{topic, append([]byte{}, rest...)})
-			targets := append([]*conn{}, b.subs[topic]...)
-			b.mu.Unlock()
 			pkt := []byte{0x30}
 			vb := append([]byte{byte(tl >> 8), byte(tl)}, []byte(topic)...)
 			vb = append(vb, rest...)
 			pkt = append(pkt, encLen(len(vb))...)
 			pkt = append(pkt, vb...)
+			b.mu.Lock()
+			b.pubs = append(b.pubs, Pub{Seq: len(b.pubs), Topic: topic, Payload: append([]byte{}, rest...), Publisher: c.id})
+			targets := append([]*conn{}, b.subs[topic]...)
+			b.queued += len(targets)
+			b.mu.Unlock()
 			for _, t := range targets {
-				t.send(pkt)
+				t.topic <- topic
+				t.queue <- pkt
 			}
 		case 8: // SUBSCRIBE
 			pid := body[:2]
@@ -131,7 +266,15 @@ func (b *Broker) serve(c *conn) {
 				topic := string(p[2 : 2+tl])
 				p = p[2+tl+1:]
 				b.mu.Lock()
-				b.subs[topic] = append(b.subs[topic], c)
+				dup := false
+				for _, x := range b.subs[topic] {
+					if x == c {
+						dup = true
+					}
+				}
+				if !dup {
+					b.subs[topic] = append(b.subs[topic], c)
+				}
 				b.mu.Unlock()
 				codes = append(codes, 0)
 			}
